@@ -159,11 +159,12 @@ class SQLiteBuilder(SQLBuilder):
         return funcname, '(', builder(expr), modifiers, ')'
     def DATE_ADD(builder, expr, delta):
         if delta[0] == 'VALUE' and isinstance(delta[1], datetime.timedelta):
-            return builder.datetime_add('date', expr, delta[1])
+            # as in Python, only whole days of the timedelta take part in date arithmetic
+            return builder.datetime_add('date', expr, datetime.timedelta(days=delta[1].days))
         return 'datetime(julianday(', builder(expr), ') + ', builder(delta), ')'
     def DATE_SUB(builder, expr, delta):
         if delta[0] == 'VALUE' and isinstance(delta[1], datetime.timedelta):
-            return builder.datetime_add('date', expr, -delta[1])
+            return builder.datetime_add('date', expr, datetime.timedelta(days=-delta[1].days))
         return 'datetime(julianday(', builder(expr), ') - ', builder(delta), ')'
     def DATE_DIFF(builder, expr1, expr2):
         return 'julianday(', builder(expr1), ') - julianday(', builder(expr2), ')'
